@@ -6,29 +6,30 @@ Import ListNotations.
 Open Scope Q_scope.
 
 Definition TOL : Q := 1 # 1000000000.
-Definition ATOL : Q := 1 # 1000000000000.
-Definition close (a b : Q) : bool := Qclose TOL ATOL a b.
+(** comparisons are RELATIVE; the absolute slack [atol] is given per case by the harness as 1e-10 times the largest
+    magnitude that occurs in the case (so that data of size 1e-12 or 1e9 are compared as strictly as data of size 1) *)
+Definition close (atol a b : Q) : bool := Qclose TOL atol a b.
 
-Definition oq_close (a b : option Q) : bool :=
+Definition oq_close (atol : Q) (a b : option Q) : bool :=
   match a, b with
-  | Some x, Some y => close x y
+  | Some x, Some y => close atol x y
   | None, None => true
   | _, _ => false
   end.
 
 (** (i) find_mode_and_uncertainty(n, bins, confidence) directly: counts, edges, confidence, observed pair *)
-Definition check_mode (c : list Z * list Q * Q * option (Q * Q)) : bool :=
-  let '(n, bins, conf, obs) := c in
+Definition check_mode (c : Q * list Z * list Q * Q * option (Q * Q)) : bool :=
+  let '(atol, n, bins, conf, obs) := c in
   match find_mode n bins conf, obs with
-  | Some (v, e), Some (v', e') => close v v' && close e e'
+  | Some (v, e), Some (v', e') => close atol v v' && close atol e e'
   | None, None => true
   | _, _ => false
   end.
 
 (** numpy.histogram(samples, bins=100) against the exact binning: samples, observed counts, observed edges *)
-Definition check_hist (c : list Q * list Z * list Q) : bool :=
-  let '(xs, n, edges) := c in
-  list_eqb Z.eqb (hist xs NBINS) n && list_eqb close (hist_edges xs NBINS) edges.
+Definition check_hist (c : Q * list Q * list Z * list Q) : bool :=
+  let '(atol, xs, n, edges) := c in
+  list_eqb Z.eqb (hist xs NBINS) n && list_eqb (close atol) (hist_edges xs NBINS) edges.
 
 (** observations of one operation *)
 Inductive obs :=
@@ -53,16 +54,18 @@ Definition range_eqb (a b : option (Q * Q)) : bool :=
   | _, _ => false
   end.
 
-Definition out_matches (o : out) (b : obs) : bool :=
+Definition out_matches (atol : Q) (o : out) (b : obs) : bool :=
   match o, b with
   | ONone, BNone => true
   | OExn e, BExn e' => exn_eqb e e'
-  | ORead v, BVal v' => oq_close v v'
-  | OErr (EExact e), BErr (Some e') => close e e'
-  | OErr (ESqrt v), BErr (Some e') => Qle_bool 0 e' && Qclose (4 # 1000000000) ATOL v (e' * e')
+  | ORead v, BVal v' => oq_close atol v v'
+  | OErr (EExact e), BErr (Some e') => close atol e e'
+  | OErr (ESqrt v), BErr (Some e') =>
+      Qle_bool 0 e' && Qclose (4 # 1000000000) (atol * atol * (10000000000 # 1)) v (e' * e')
   | OErr EUndef, BErr None => true
-  | OSamples _ a, BSamples a' => list_eqb close a a'
-  | OInfo z c s r, BInfo z' c' s' r' => Z.eqb z z' && close c c' && strategy_eqb s s' && range_eqb r r'
+  | OSamples _ a, BSamples a' => list_eqb (close atol) a a'
+  | OInfo z c s r, BInfo z' c' s' r' =>
+      Z.eqb z z' && close (1 # 1000000000000) c c' && strategy_eqb s s' && range_eqb r r'
   | _, _ => false
   end.
 
@@ -71,28 +74,28 @@ Definition out_matches (o : out) (b : obs) : bool :=
 Definition recorded (calls : list (list Q)) (i n : nat) : list Q :=
   let l := nth i calls [] in if (length l =? n)%nat then l else [].
 
-Fixpoint check_steps (f : list Q -> option Q) (C : matrix) (calls : list (list Q))
+Fixpoint check_steps (atol : Q) (f : list Q -> option Q) (C : matrix) (calls : list (list Q))
          (s : st) (h : list (op * obs * (bool * bool))) : bool :=
   match h with
   | [] => negb (unsup s) && (ncalls s =? length calls)%nat
   | (x, b, (w1, w2)) :: h' =>
       let '(s1, o, (m1, m2)) := step f C (recorded calls) s x in
-      out_matches o b && Bool.eqb m1 w1 && Bool.eqb m2 w2 && check_steps f C calls s1 h'
+      out_matches atol o b && Bool.eqb m1 w1 && Bool.eqb m2 w2 && check_steps atol f C calls s1 h'
   end.
 
 (** a history: formula, correlation matrix, sources (in the order of the implementation's id set),
     global sample size at the start, the recorded normal() results, the operations with observations *)
 Definition check_history
-  (c : expr * matrix * list src * Z * list (list Q) * list (op * obs * (bool * bool))) : bool :=
-  let '(e, C, srcs0, g, calls, h) := c in
-  wf_expr e && check_steps (eval e) C calls (init srcs0 g) h.
+  (c : Q * expr * matrix * list src * Z * list (list Q) * list (op * obs * (bool * bool))) : bool :=
+  let '(atol, e, C, srcs0, g, calls, h) := c in
+  wf_expr e && check_steps atol (eval e) C calls (init srcs0 g) h.
 
 (** index of the first step that disagrees (for shrinking / reports) *)
-Fixpoint first_bad (f : list Q -> option Q) (C : matrix) (calls : list (list Q))
+Fixpoint first_bad (atol : Q) (f : list Q -> option Q) (C : matrix) (calls : list (list Q))
          (s : st) (h : list (op * obs * (bool * bool))) (i : nat) : option nat :=
   match h with
   | [] => if negb (unsup s) && (ncalls s =? length calls)%nat then None else Some i
   | (x, b, (w1, w2)) :: h' =>
       let '(s1, o, (m1, m2)) := step f C (recorded calls) s x in
-      if out_matches o b && Bool.eqb m1 w1 && Bool.eqb m2 w2 then first_bad f C calls s1 h' (S i) else Some i
+      if out_matches atol o b && Bool.eqb m1 w1 && Bool.eqb m2 w2 then first_bad atol f C calls s1 h' (S i) else Some i
   end.
